@@ -197,6 +197,85 @@ func genAuditLog() {
 		lf.def("lineReader", "String", strconv.Quote(kind), lg+": processLogFile reads lines with a bufio.Scanner (64 KiB limit) or a bufio.Reader (no limit)")
 	}
 	lf.def("verifierSkips", "List String", strList(skipped), iv+": VerifyIntegrityCheck – parse errors after which the line is skipped (`continue`)")
+	genAuditLogJSON(lf, prs, lg)
+}
+
+// JSON format: what getBytes applies to a value, how convertMapToBytes concatenates, how the entry is decoded
+// (decoder calls of unmarshalLogEntry) and that hook and parser both decode with it.
+func genAuditLogJSON(lf *leanFile, prs, lg string) {
+	gb := funcDecl(prs, "", "getBytes")
+	if gb == nil || gb.Body == nil {
+		fail("%s: getBytes not found", prs)
+	}
+	var stmts []string
+	for _, st := range gb.Body.List {
+		stmts = append(stmts, render(st))
+	}
+	lf.def("getBytesBody", "List String", strList(stmts), prs+": the statements of getBytes (the value serializer shared by the JSON hook and the JSON parser)")
+	cm := funcDecl(prs, "", "convertMapToBytes")
+	if cm == nil {
+		fail("%s: convertMapToBytes not found", prs)
+	}
+	var appended []string
+	ast.Inspect(cm, func(n ast.Node) bool {
+		rs, ok := n.(*ast.RangeStmt)
+		if !ok || render(rs.X) != "keys" {
+			return true
+		}
+		ast.Inspect(rs.Body, func(m ast.Node) bool {
+			if c, ok := m.(*ast.CallExpr); ok {
+				if id, ok := c.Fun.(*ast.Ident); ok && id.Name == "append" && len(c.Args) == 2 && render(c.Args[0]) == "rawDataBytes" {
+					appended = append(appended, render(c.Args[1]))
+				}
+			}
+			return true
+		})
+		return false
+	})
+	if len(appended) == 0 {
+		fail("%s: convertMapToBytes: the `for … range keys` loop appending to rawDataBytes was not found", prs)
+	}
+	lf.def("convAppends", "List String", strList(appended), prs+": convertMapToBytes – what is appended to rawDataBytes for every key, in order")
+	lf.def("convSortsKeys", "Bool", boolStr(callsSel(cm, "sort", "Strings")), prs+": convertMapToBytes sorts the keys with sort.Strings")
+	valueFrom := ""
+	ast.Inspect(cm, func(n ast.Node) bool {
+		if as, ok := n.(*ast.AssignStmt); ok && len(as.Lhs) == 2 && render(as.Lhs[0]) == "valueBytes" && len(as.Rhs) == 1 {
+			valueFrom = render(as.Rhs[0])
+		}
+		return true
+	})
+	lf.def("convValueBytes", "String", strconv.Quote(valueFrom), prs+": convertMapToBytes – where valueBytes comes from")
+	um := funcDecl(prs, "", "unmarshalLogEntry")
+	var calls []string
+	if um != nil {
+		ast.Inspect(um, func(n ast.Node) bool {
+			if c, ok := n.(*ast.CallExpr); ok {
+				if s, ok := c.Fun.(*ast.SelectorExpr); ok {
+					if id, ok := s.X.(*ast.Ident); ok && (id.Name == "json" || id.Name == "decoder") {
+						calls = append(calls, id.Name+"."+s.Sel.Name)
+					}
+				}
+			}
+			return true
+		})
+	}
+	lf.def("jsonDecodeCalls", "List String", strList(calls), prs+": unmarshalLogEntry – calls on encoding/json and on the decoder, in order (empty: the function does not exist)")
+	for _, p := range [][4]string{{lg, "JSONFormatterHook", "PostFormat", "jsonHookDecodesWith"}, {prs, "JSONLogParser", "ParseEntry", "jsonParserDecodesWith"}} {
+		fd := funcDecl(p[0], p[1], p[2])
+		if fd == nil {
+			fail("%s: %s.%s not found", p[0], p[1], p[2])
+		}
+		with := ""
+		switch {
+		case callsSel2(fd, "unmarshalLogEntry") && !callsSel(fd, "json", "Unmarshal"):
+			with = "unmarshalLogEntry"
+		case callsSel(fd, "json", "Unmarshal") && !callsSel2(fd, "unmarshalLogEntry"):
+			with = "json.Unmarshal"
+		default:
+			fail("%s: %s.%s: cannot tell how the entry is decoded", p[0], p[1], p[2])
+		}
+		lf.def(p[3], "String", strconv.Quote(with), p[0]+": "+p[1]+"."+p[2]+" decodes the entry with")
+	}
 }
 
 func callsSel2(fd *ast.FuncDecl, fn string) bool {
